@@ -664,6 +664,11 @@ class Grid(object):
 
         xycoords = np.ascontiguousarray(np.atleast_2d(xycoords),
                                         dtype=np.float64)
+        if xycoords.ndim != 2 or xycoords.shape[1] != 2:
+            errmess = "Expected xycoords of shape [n, 2], "\
+                      + f"got {xycoords.shape}."
+            raise ValueError(errmess)
+
         idxcell = np.zeros(len(xycoords)).astype(np.int64)
 
         ierr = c_hydrodiy_gis.coord2cell(nrows, ncols, xll, yll,
